@@ -87,6 +87,15 @@ Theorem C04_refuted_datagram_after_close_pre_fix : exists (ops : list dgop) (sec
 Proof. exact datagram_pre_fix_refuted. Qed.
 Print Assumptions C04_refuted_datagram_after_close_pre_fix.
 
+(** What pins that defect: the old exit code already kept every view sealed on
+    all traces without a datagram processed after the close. *)
+Theorem C04_pre_fix_sealed_without_late : forall k transits ops,
+  no_late_anywhere ops = true ->
+  let st := dg_run PreFix (established k transits) ops in
+  Forall (Forall (fun s => sealed_under k (snd s) = true /\ readable (snd s) = [])) (g_views st).
+Proof. exact datagram_views_sealed_pre_fix_without_late. Qed.
+Print Assumptions C04_pre_fix_sealed_without_late.
+
 (** The totals evaluated by the correspondence check are those of the view of
     the transit next to the exit in the datagram model. *)
 Theorem C04_oracle_is_the_model : forall ver k transits ops,
